@@ -94,6 +94,28 @@ fn reads(w: &mut World, types: &[TypeDef], n_ctx: usize, at: &str, count_ok: boo
             let extra: Vec<i64> = got.difference(&want).cloned().collect();
             return Ok(Some((if !missing.is_empty() { "seen-zero-times" } else { "unknown-event" }.into(), json!({"at": at, "cmd": q, "missing": missing, "extra": extra, "log": w.db.log}))));
         }
+        // paging: an unordered selection that skips m rows shows each of the remaining events once - exactly |events| - m
+        // distinct rows (which ones is not specified)
+        let n = want.len();
+        let mut offsets = vec![1usize, n / 2, n];
+        offsets.sort();
+        offsets.dedup();
+        for m in offsets.into_iter().filter(|m| *m >= 1 && n >= 1) {
+            let qp = format!("QUERY {} RETURN [k] LIMIT 100000 OFFSET {}", t.name, m);
+            let rp = w.db.cmd(&qp)?;
+            rep.sub_evals += 1;
+            let rows = ks_of(&rp);
+            let got: BTreeSet<i64> = rows.iter().cloned().collect();
+            if got.len() != rows.len() {
+                return Ok(Some(("seen-twice".into(), json!({"at": at, "cmd": qp, "rows": rows, "log": w.db.log}))));
+            }
+            if !got.is_subset(&want) {
+                return Ok(Some(("unknown-event".into(), json!({"at": at, "cmd": qp, "rows": rows, "log": w.db.log}))));
+            }
+            if rows.len() != n.saturating_sub(m) {
+                return Ok(Some(("page-size".into(), json!({"at": at, "cmd": qp, "returned": rows.len(), "events": n, "offset": m, "log": w.db.log}))));
+            }
+        }
         if count_ok {
             let qc = format!("QUERY {} COUNT", t.name);
             let rc = w.db.cmd(&qc)?;
@@ -270,7 +292,7 @@ pub fn run(ctx: &Ctx) -> i32 {
     let mut report = Report::new(
         "C03",
         "exploration",
-        "generated (config with small capacity, settled prefix, schedule of 1-5 pause points (step, nth crossing) over the async step boundaries of the flush worker / flusher / zone writer / index save / publication / passive release / WAL pruning / WAL task, store sequence causing 1-8 rotations); with the worker parked at each step the driver stores two more events and issues QUERY RETURN [k], COUNT, COUNT BY context_id and typed REPLAY per context; again right after the release (racing) and after settling. Every acknowledged event must be seen exactly once; COUNT and group sums must equal the selection. Non-trivial: a read while parked strictly inside the flush (after dequeue, before the flush task finished).",
+        "generated (config with small capacity, settled prefix, schedule of 1-5 pause points (step, nth crossing) over the async step boundaries of the flush worker / flusher / zone writer / index save / publication / passive release / WAL pruning / WAL task, store sequence causing 1-8 rotations); with the worker parked at each step the driver stores two more events and issues QUERY RETURN [k], the same with LIMIT .. OFFSET m (m = 1, half, all: |events| - m distinct rows), COUNT, COUNT BY context_id and typed REPLAY per context; again right after the release (racing) and after settling. Every acknowledged event must be seen exactly once; COUNT and group sums must equal the selection. Non-trivial: a read while parked strictly inside the flush (after dequeue, before the flush task finished).",
     );
     report.assumptions = vec!["the schedule is owned only at hook points; pre-emption between two hook points is sampled by the racing read after each release, not enumerated".into()];
     replay_known(ctx, &stats, &mut report, &replay);
